@@ -250,9 +250,18 @@ def check_minimage(ck):
     n_gen = 2500 if ck.thorough else 350
     kinds = {}
     for it in range(n_gen):
-        mode = it % 6
+        mode = it % 8
         if mode == 0:
             L = np.diag(ck.rng.uniform(1, 6, size=3))
+        elif mode == 6:  # orthogonal COLUMNS but non-orthogonal rows: rotation @ diagonal (must take the general branch)
+            ax = ck.rng.normal(size=3)
+            ax /= np.linalg.norm(ax)
+            th = ck.rng.uniform(0.05, 0.35)
+            K = np.array([[0, -ax[2], ax[1]], [ax[2], 0, -ax[0]], [-ax[1], ax[0], 0]])
+            Rm = np.eye(3) + np.sin(th) * K + (1 - np.cos(th)) * K @ K
+            L = Rm @ np.diag(ck.rng.uniform(1, 4, size=3))
+        elif mode == 7:  # almost orthogonal / almost diagonal: off-diagonal terms around the branch-selection tolerance
+            L = np.diag(ck.rng.uniform(1, 6, size=3)) + ck.rng.normal(size=(3, 3)) * ck.rng.choice([1e-12, 1e-9, 1e-6, 1e-3])
         elif mode == 1:  # orthogonal rotated
             Q, _ = np.linalg.qr(ck.rng.normal(size=(3, 3)))
             L = np.diag(ck.rng.uniform(1, 6, size=3)) @ Q
